@@ -20,25 +20,27 @@ LEVEL_TEXT = (
     "/ Union / tuple over two classes and must reach exactly the classes inside, never stopping at or failing on "
     "a wrapper; get_distance_to_terminal is interpreted on nested wrappers with symbolic table entries and must "
     "charge every level; usable_grammar also on an abstract symbol that is itself a dataclass; the reachability "
-    "relation is checked end to end - on nine model grammars whose only cycle passes through one nested wrapper "
-    "type the interpreted preprocess must report the cycle, whatever closures, helpers or helper classes it is "
-    "made of; (R2) AND/OR polarity of the distance equations: union and abstract symbols aggregate with min, "
-    "tuples and concrete productions with max, and the fixpoint only decreases values; (R3) the places that "
-    "enumerate base types agree: every base type a creator produces without consuming a level has distance 0 in "
-    "the default mode; (R4) a grammar that redoes its analysis in place (update_weights -> self.__init__) keeps "
-    "its start symbol, supplied classes and depth-counting mode (interpreted on a symbolic configuration); (R5) "
-    "update_weights completes on a grammar one of whose supplied classes the start symbol does not reach "
-    "(interpreted with strict dict lookups); (R6) sa/rules/grammodel.py: Grammar.__init__, register_type(start), "
-    "preprocess() and usable_grammar() are interpreted end to end on model grammars (class hierarchies written as"
-    " data; only reflection - is_abstract, get_arguments, mro, issubclass - is replaced by the data) and the "
-    "tables they end with are compared with a reference computed independently from the specification: "
-    "productions = direct subtypes among the supplied classes, minimum depth = least fixpoint of the depth "
-    "equations in the library's convention, recursive = self-reachable in the derivation graph, usable = "
-    "reachable from the start symbol; both depth modes; quick tier 8 grammars, thorough tier 160 more from a "
-    "reproducible generator (1-3 abstract types, 2-5 productions, int / symbol / list / Annotated / nested / "
-    "Union fields, unreachable classes, shuffled supply order). The family avoids tuple fields, unions of unequal"
-    " depth and bool fields (known findings R1-R3). Beyond the family the exact tables are not claimed; language "
-    "equality of the usable sub-grammar is not claimed (only its symbol set)."
+    "relation is checked end to end - on fourteen model grammars whose only cycle passes through one nested "
+    "wrapper type (list[Union[..]], Annotated[list[Union[..]], ..], list[list[..]] included) the interpreted "
+    "preprocess must report the cycle, whatever closures, helpers or helper classes it is made of; (R2) AND/OR "
+    "polarity of the distance equations: union and abstract symbols aggregate with min, tuples and concrete "
+    "productions with max, and the fixpoint only decreases values; (R3) the places that enumerate base types "
+    "agree: every base type a creator produces without consuming a level has distance 0 in the default mode; (R4)"
+    " a grammar that redoes its analysis in place (update_weights -> self.__init__, or a fresh Grammar(..) whose "
+    "state is adopted wholesale or table by table) keeps its start symbol, supplied classes and depth-counting "
+    "mode (interpreted on a symbolic configuration); (R5) update_weights completes on a grammar one of whose "
+    "supplied classes the start symbol does not reach (interpreted with strict dict lookups); (R6) "
+    "sa/rules/grammodel.py: Grammar.__init__, register_type(start), preprocess() and usable_grammar() are "
+    "interpreted end to end on model grammars (class hierarchies written as data; only reflection - is_abstract, "
+    "get_arguments, mro, issubclass - is replaced by the data) and the tables they end with are compared with a "
+    "reference computed independently from the specification: productions = direct subtypes among the supplied "
+    "classes, minimum depth = least fixpoint of the depth equations in the library's convention, recursive = "
+    "self-reachable in the derivation graph, usable = reachable from the start symbol; both depth modes; quick "
+    "tier 8 grammars, thorough tier 160 more from a reproducible generator (1-3 abstract types, 2-5 productions, "
+    "int / symbol / list / Annotated / nested / Union fields, unreachable classes, shuffled supply order). The "
+    "family avoids tuple fields, unions of unequal depth and bool fields (known findings R1-R3). Beyond the "
+    "family the exact tables are not claimed; language equality of the usable sub-grammar is not claimed (only "
+    "its symbol set)."
 )
 
 GRAMMAR_MOD = "geneticengine.grammar.grammar"
@@ -540,12 +542,16 @@ def rule_r5(ctx: Ctx) -> None:
     m = gcls.methods.get("update_weights") if gcls is not None else None
     if m is None or len(m.params) < 3:
         raise AnalysisError("anchor function missing: Grammar.update_weights(learning_rate, extra_weights)")
-    S, P1, P2, U = Sym("START"), Sym("P1"), Sym("P2"), Sym("UNREACHED")
-    for label, supplied in (("every supplied class reachable", [P1, P2]), ("a supplied class the start symbol does not reach", [P1, P2, U])):
-        env = {"self": Sym("self"), "self.alternatives": {"START": [P1, P2]}, "self.all_nodes": [S, P1, P2], "self.distanceToTerminal": {},
+    S, P1, P2, U, INT_ = Sym("START"), Sym("P1"), Sym("P2"), Sym("UNREACHED"), Sym("int")
+    n5 = 0
+    for label, supplied in (("every supplied class reachable", [P1, P2]), ("a supplied class the start symbol does not reach", [P1, P2, U]),
+                            ("a supplied symbol is a base type (usable_grammar hands over every symbol it reached, int included)", [S, P1, INT_, P2])):
+        n5 += 1
+        base = INT_ in supplied
+        env = {"self": Sym("self"), "self.alternatives": {"START": [P1, P2]}, "self.all_nodes": [S, P1, P2] + ([INT_] if base else []), "self.distanceToTerminal": {},
                "self.recursive_prods": set(), "self.terminals": set(), "self.non_terminals": set(), "self.starting_symbol": S,
                "self.considered_subtypes": list(supplied), "self.expansion_depthing": False,
-               m.params[1]: 1, m.params[2]: {"START": 1.0, "P1": 1.0, "P2": 1.0}}
+               m.params[1]: 1, m.params[2]: {"START": 1.0, "P1": 1.0, "P2": 1.0, "int": 1.0}}
 
         def call_model(it, call, env_, args, kwargs):
             nm = call_name(call)
@@ -559,6 +565,10 @@ def rule_r5(ctx: Ctx) -> None:
 
         it = Interp(prog, gcls, lambda *_: None, call_model, max_depth=5, max_traces=32)
         it.strict_keys = True
+        # the namespace of a grammar class holds its metadata dict; the namespace of a built-in type does not (and cannot be given one)
+        for k_ in (S, P1, P2, U):
+            it.heap[(k_.tag, "__dict__")] = {"__gengy__": {}}
+        it.heap[(INT_.tag, "__dict__")] = {}
         construct = f"Grammar.update_weights completes: {label}"
         try:
             runs = it.run(m, env)
@@ -569,6 +579,9 @@ def rule_r5(ctx: Ctx) -> None:
         other = [e for tr, _, _ in runs for e in tr if e.kind == "raise" and not e.name.startswith("KeyError")]
         if bad:
             ctx.ob("C05.R5", m, bad[0].node or m.node, construct, False,
+                   (f"'{norm(bad[0].node)[:60]}' raises {bad[0].name}: the metadata dict is looked up in the namespace of every supplied symbol, and a "
+                    f"built-in type has none - usable_grammar() of a weighted grammar with an int / str / float field fails instead of returning the "
+                    f"reachable sub-grammar") if base else
                    f"'{norm(bad[0].node)[:60]}' raises {bad[0].name}: the table of weights has one entry per registered (reachable) "
                    f"symbol but is indexed with every supplied class, so extract_grammar fails on a weighted grammar that is given "
                    f"a class the start symbol does not reach (the same classes are accepted without weights)")
@@ -576,7 +589,7 @@ def rule_r5(ctx: Ctx) -> None:
             ctx.ob("C05.R5", m, m.node, construct, None, f"the model run ends in {other[0].name}")
         else:
             ctx.ob("C05.R5", m, m.node, construct, True, "")
-    ctx.floor("C05.R5", 2, 2, "update_weights scenarios")
+    ctx.floor("C05.R5", n5, 3, "update_weights scenarios")
 
 
 def run(ctx: Ctx) -> None:
